@@ -245,6 +245,24 @@ class Executor:
         return ep
 
     def read(self, body, fid, st, P):
+        v = self._read0(body, fid, st, P)
+        if v[0] != 'agg':
+            # fields of P assigned individually after P got its value (`node.remaining_tx -= 1; consume(node)`):
+            # the whole value is the base with those fields updated
+            subs = {(Q[2], Q[3]) for Q in st.store
+                    if Q[0] == 'field' and Q[1] == P}
+            for Q in st.store:
+                x = Q
+                while x[0] in ('field', 'index') and x[1] != P:
+                    x = x[1]
+                if x[0] == 'field' and x[1] == P and x is not Q:
+                    subs.add((x[2], x[3]))
+            for (name, variant) in sorted(subs, key=lambda t: (t[0], t[1] or '')):
+                fv = self.read(body, fid, st, ('field', P, name, variant))
+                v = ('upd', v, name, variant, fv)
+        return v
+
+    def _read0(self, body, fid, st, P):
         if P in st.store:
             return st.store[P]
         k = P[0]
@@ -254,7 +272,7 @@ class Executor:
                 return ('param', 0, n)
             return ('uninit', f, n)
         if k == 'field':
-            base = self.read(body, fid, st, P[1])
+            base = self._read0(body, fid, st, P[1])     # (sub-entries of P itself are overlaid by read())
             return self.project(st, base, P[2], P[3], P)
         if k in ('deref', 'index'):
             return ('load', P, self.epoch(st, P))
@@ -262,6 +280,10 @@ class Executor:
 
     def project(self, st, base, name, variant, P):
         b = base[0]
+        if b == 'upd':
+            if base[2] == name and (base[3] == variant or base[3] is None or variant is None):
+                return base[4]
+            return self.project(st, base[1], name, variant, P)
         if b == 'agg':
             if variant is None or base[3] == variant or not base[3]:
                 fields, ops = base[4], base[5]
@@ -498,6 +520,9 @@ class Executor:
             return ('cast', 'Into', args[0], t['dest'].get('ty', ''))
         if d == 'core::num::NonZero::get' and len(args) == 1:
             return ('unop', 'NonZeroGet', args[0])
+        if res == '<core::option::Option as core::ops::FromResidual>::from_residual':
+            # `opt?` on the None edge: the function returns None
+            return ('agg', 'adt', 'core::option::Option', 'None', (), ())
         if d in ('core::mem::replace',) and len(args) == 2 and args[0][0] == 'ref':
             P = args[0][1]
             old = self.read_place(body, fid, st, P)
@@ -913,6 +938,8 @@ def show(v, body=None, depth=0):
         return 'fn ' + (v[2] or v[1])
     if k == 'havoc':
         return 'havoc#%d(%s)' % (v[2], s(v[1]))
+    if k == 'upd':
+        return '%s{%s: %s}' % (s(v[1]), v[2], s(v[4]))
     if k == 'loopvar':
         nm = body.local_names.get(v[2]) if (body is not None and v[1] == 0) else None
         return '%s~%d' % (nm or ('_%d' % v[2]), v[4])
